@@ -152,6 +152,9 @@ def physical(P, S_prev, a, S):
     return out
 
 
+OBJECTIVE_HOLDS_ON_PREFIX = True  # the objective is a running quantity: valid after every step of a legal episode
+
+
 def objective(P, trace):
     P.hit("fruits_eaten")
     return float(int(trace[-1].S["length"]) - 1)
